@@ -197,6 +197,9 @@ pub fn drive<D: Transactable>(cx: &mut Ctx, d: &mut D, rng: &mut Rng, enc: TextE
         let invalid = rng.chance(25);
         let misaligned = !invalid && rng.chance(misaligned_pct);
         let call = gen_call(&model, rng, enc, n, invalid, misaligned);
+        if cx.verbose {
+            eprintln!("  > [{variant}] {call:?}");
+        }
         let pend = d.pending_ops();
         // pre-state class for distinctness / non-triviality
         let target_conflicted = {
